@@ -23,13 +23,15 @@ class Chooser:
         self.dev = 0
         self.defaults = tuple(defaults)  # ((label prefix, alternative), ...): the default answer of a harness variant
 
-    def default(self, n, label):
+    def default(self, n, label, values=None):
         for pre, alt in self.defaults:
             if label.startswith(pre):
+                if isinstance(alt, (tuple, list)):  # ("v", value): the alternative that stands for this value
+                    return list(values).index(alt[1]) if values is not None and alt[1] in values else 0
                 return min(alt, n - 1)
         return 0
 
-    def choose(self, n, label=""):
+    def choose(self, n, label="", values=None):
         i = len(self.trace)
         if i < len(self.prefix):
             c = self.prefix[i]
@@ -38,7 +40,7 @@ class Chooser:
             if self.expect is not None and i < len(self.expect) and self.expect[i] != (n, label):
                 raise ReplayDivergence(f"choice {i}: recorded {self.expect[i]}, now {(n, label)}")
         else:
-            c = self.default(n, label) if self.defaults else 0
+            c = self.default(n, label, values) if self.defaults else 0
         self.trace.append((n, label, c))
         return c
 
